@@ -160,3 +160,7 @@ package lib
 //@   pure
 //@   ensures[range] AsciiStr(chars) ==> -1 <= r && r < len(s) && (r >= 0 ==> ByteIn(chars, s[r]))
 //@   ensures[first] AsciiStr(chars) ==> forall k int {s[k]} :: 0 <= k && k < len(s) && (r < 0 || k < r) ==> !ByteIn(chars, s[k])
+
+//@ lib func strings.HasPrefix(s string, prefix string) (b bool)
+//@   pure
+//@   ensures b == SubAt(s, 0, prefix)
